@@ -17,6 +17,8 @@ from vlib import sym
 from vlib.gistub import ap, install_logger
 
 IDENTS = ('foo_bar', 'FooObj:the-prop', 'FooObj::the-sig', 'FooRec.x_y', 'SECTION:foo_sec', 'FOO_CONST', 'FooObj')
+# identifier lines may be written without the colon when nothing or only annotations follow on later lines
+NO_COLON_OK = ('foo_bar', 'FooObj:the-prop', 'FooObj::the-sig', 'FooRec.x_y', 'FOO_CONST', 'FooObj')
 # annotation lists: (name, options) with options a list or an ordered dict (None value = key only)
 IDENT_ANNS = (
     [],
@@ -25,6 +27,7 @@ IDENT_ANNS = (
     [('attributes', OrderedDict([('a', 'b'), ('c.d', None)]))],
     [('skip', []), ('rename-to', ['foo_baz'])],
     [('unknownann', ['p q'])],            # options of an unknown annotation stay one string
+    [('attributes', OrderedDict([('demo.query', 'name==value'), ('x', 'a=b')]))],   # values containing '='
     [('transfer', ['full']), ('type', ['utf8'])],
     [('constructor', []), ('finish-func', ['foo_bar_finish'])],
     [('value', ['42'])],
@@ -46,9 +49,11 @@ PARAM_ANNS = (
     [('skip', [])],
 )
 DESCS = (None, 'some text', 'first line\nsecond line', 'text with: a colon and (parens) inside',
-         'wrapped over\nthree lines\nof text', 'non-ASCII café ☃')
+         'wrapped over\nthree lines\nof text', 'non-ASCII café ☃',
+         'form\x0cfeed, vertical\x0btab, \x1c\x1d\x1e, next\x85line, line\u2028separator, paragraph\u2029separator inside')
 BLOCK_DESCS = (None, 'One paragraph.', 'First paragraph\nwrapped.\n\nSecond paragraph.',
-               'Code follows:\n|[\n  indented (code);\n]|', 'Ends with a colon:')
+               'Code follows:\n|[\n  indented (code);\n]|', 'Ends with a colon:',
+               'Separators\x0cinside\u2028the block\x85description.')
 PARAM_SETS = ((), ('p',), ('p', 'long_name'), ('p', '...'), ('p', 'n', 'data'))
 VERSIONS = (None, ('1.2', None), ('0.10', 'since text'), ('2.0', 'wrapped\nsince text'))
 STABS = (None, ('Stable', None), ('Unstable', 'why'))
@@ -103,6 +108,11 @@ def render(model, lay):
     ia = _ann_text(model['ident_anns'])
     if model['ident'].startswith('SECTION:'):
         body.append(model['ident'])
+    elif not lay['colon'] and not ia:
+        body.append(model['ident'])                     # the colon after a bare identifier is optional
+    elif not lay['colon'] and lay['split']:
+        body.append(model['ident'])                     # ... also when its annotations follow on the next lines
+        body += ['  ' + x for x in ia]
     elif lay['split'] and len(ia) >= 2:
         body.append(model['ident'] + ': ' + ia[0])
         body += ['  ' + x for x in ia[1:]]
